@@ -642,7 +642,8 @@ def run_check(tier, seed):
                     if kind == 'passthrough':
                         cl.new('passthrough root=%s no_opendir=%d' % (root, noopendir)); prefix = []
                     else:
-                        cl.new('vfs no_opendir=%d mount=/m/x=%s mount=/m/y=%s mount=/p1=%s' % (noopendir, root, root, root)); prefix = [b'm', b'x']
+                        big = ' '.join('mount=/big/%s=%s' % (n.decode(), os.path.join(root, 'e0')) for n in PSEUDO_BIG)
+                        cl.new('vfs no_opendir=%d mount=/m/x=%s mount=/m/y=%s mount=/p1=%s %s' % (noopendir, root, root, root, big)); prefix = [b'm', b'x']
                     neg = cl.init(FUSE_DO_READDIRPLUS | (FUSE_NO_OPENDIR_SUPPORT if noopendir else 0))
                     if bool(neg & FUSE_NO_OPENDIR_SUPPORT) != noopendir:
                         broken.append({'kind': 'harness', 'what': 'no_opendir negotiation', 'config': cfgdesc}); continue
@@ -747,18 +748,28 @@ def dedup(findings):
         if seen[k] <= 3: out.append(f)
     return out
 
+PSEUDO_BIG = [b'c' + b'x' * i for i in range(30)]        # 30 mount points under /big: names of 1..30 bytes
+
 def pseudo_cases(cl, rng, cfgdesc, exprs, expr_meta):
     """pseudo directories seen through the VFS: root (children m, p1) and /m (children x, y): index offsets"""
     F, B = [], []; n = 0
-    layout = {1: [b'm', b'p1']}
+    layout = {1: [b'm', b'p1', b'big']}
     err, ent = cl.lookup(1, b'm')
     if err: return F, [{'kind': 'harness', 'what': 'lookup pseudo dir m'}], 0
     layout[ent['nodeid']] = [b'x', b'y']
+    err, ent = cl.lookup(1, b'big')
+    if err: return F, [{'kind': 'harness', 'what': 'lookup pseudo dir big'}], 0
+    layout[ent['nodeid']] = list(PSEUDO_BIG)
     for nodeid, names in layout.items():
         hist = []
         for plus in (False, True):
-            for size in [fuse_size(b'x', plus), fuse_size(b'x', plus) * 2, fuse_size(b'p1', plus) * 2 + 7, 4096, 31, 0]:
-                for off in [0, 1, 2, 3, 5, 2 ** 63, 2 ** 64 - 2]:
+            sizes = [fuse_size(b'x', plus), fuse_size(b'x', plus) * 2, fuse_size(b'p1', plus) * 2 + 7, 4096, 31, 0]
+            offs = [0, 1, 2, 3, 5, 2 ** 63, 2 ** 64 - 2]
+            if len(names) > 5:
+                sizes += [fuse_size(names[-1], plus), 333, 1000, rng.randrange(32, 3000)]
+                offs += [len(names) - 1, len(names), len(names) + 1, rng.randrange(len(names)), rng.randrange(len(names))]
+            for size in sizes:
+                for off in offs:
                     r = cl.readdir(nodeid, 0, size, off, plus); n += 1
                     rec = {'fh': 0, 'size': size, 'off': off, 'plus': plus}
                     if not isinstance(r, tuple): rec['res'] = 'panic'
@@ -776,6 +787,20 @@ def pseudo_cases(cl, rng, cfgdesc, exprs, expr_meta):
                             F.append({'what': 'pseudo directory listing from offset %d size %d: got %r want %r' % (off, size, got, want),
                                       'input': {'config': cfgdesc, 'node': nodeid, 'request': rec['size']}, 'sig': {'class': 'pseudo-listing'}})
                     hist.append(rec)
+        # resuming client on the pseudo directory: exactly once, in order, ends with an empty reply
+        for plus in (False, True):
+            for size in ([fuse_size(names[-1], plus), fuse_size(names[-1], plus) * 2 + 9, 1024] if len(names) > 5 else [fuse_size(b'big', plus)]):
+                off = 0; got = []; ok = True
+                for _ in range(len(names) + 2):
+                    r = cl.readdir(nodeid, 0, size, off, plus); n += 1
+                    rec = {'fh': 0, 'size': size, 'off': off, 'plus': plus}
+                    if not isinstance(r, tuple) or r[0]: rec['res'] = 'err'; hist.append(rec); ok = False; break
+                    rec['res'] = 'ok'; rec['ents'] = decode_dirents(r[1], plus); hist.append(rec)
+                    if not rec['ents']: break
+                    got += [e['name'] for e in rec['ents']]; off = rec['ents'][-1]['off']
+                if not ok or got != names or hist[-1].get('ents') != []:
+                    F.append({'what': 'pseudo directory listed by a resuming client with size %d: got %d names, directory has %d' % (size, len(got), len(names)),
+                              'input': {'config': cfgdesc, 'node': nodeid, 'size': size, 'plus': plus}, 'sig': {'class': 'pseudo-stream'}})
         ch = '[' + '; '.join('(unhex "%s", 0)' % nm.hex() for nm in names) + ']'
         cases = '; '.join('(%s, %d, %d, %s)' % ('true' if r['plus'] else 'false', r['size'], r['off'],
                                                ('POffs [%s]' % '; '.join(str(e['off']) for e in r['ents'])) if r['res'] == 'ok' else 'PBad') for r in hist)
